@@ -27,6 +27,8 @@ def gen(tier, rng):
     yield nodegen.switch_timeout_script(rng, "switch-timeout")
     yield nodegen.plain_script(rng, "plain-switch", [True, True, "only"], mode="switch", dev="tap", seconds=8)
     yield nodegen.close_script(rng, "close-switch", mode="switch", dev="tap")
+    # "delivered … to every peer selected for it": selection by nested claims of every family, down to the default routes 0.0.0.0/0 and fd00::/8
+    yield nodegen.families_script(rng, "families", 8 if thorough else 4)
     for mode, dev in combos:
         for n in ([2, 3, 4, 5] if thorough else [3]):
             for _ in range(3 if thorough else 1):
